@@ -37,7 +37,7 @@ T(n) ==
        \cup (IF n >= 3 THEN UNION { {If(c, t, f) : c \in T(i), t \in T(j), f \in T(n - i - j)}
                                      : <<i, j>> \in {p \in (1..(n-2)) \X (1..(n-2)) : p[1] + p[2] <= n - 1} }
              ELSE {})
-Wrapped(t) == {Un("not", t), Un("some", t), Call(S("q"), t), Idx(VecE(<<t>>), PosI(0)), Idx(t, FieldI(S("a")))}
+Wrapped(t) == {Un("not", t), Un("some", t), Call(S("q"), t), Call(S("nofn"), t), Idx(VecE(<<t>>), PosI(0)), Idx(t, FieldI(S("a")))}
 Shapes == LET base == UNION {T(n) : n \in 1..L} IN
           IF Wrap THEN base \cup UNION {Wrapped(t) : t \in UNION {T(n) : n \in 1..(IF L > 2 THEN 2 ELSE L)}}
                        \cup {Bin("and", w, Hole) : w \in Wrapped(Hole)} \cup {Bin("eq", Hole, w) : w \in Wrapped(Hole)}
